@@ -110,8 +110,10 @@ def _load_file(data, order):
 
     f = P.load(data, lazy=False)
     file_order = list(f.getGlyphOrder())
-    carried = file_order == list(order)
-    if not carried:
+    # does the FILE state glyph names (CFF charset strings / post formats with names), or did the reader make them up?
+    stored = ("CFF " in f and not hasattr(f["CFF "].cff.topDictIndex[0], "ROS")) or ("post" in f and f["post"].formatType in (1.0, 2.0, 4.0))
+    carried = bool(stored) and file_order == list(order)
+    if file_order != list(order):
         f = P.load(data, lazy=False)
         f.setGlyphOrder(list(order))
         if hasattr(f, "_reverseGlyphOrderDict"):
@@ -228,7 +230,7 @@ def build_reorder_trace(B, A, want, meta):
     ga = rows(A, A["order"])
     nom = []
     for cp in sorted(B["hb"]["nominal"]):
-        b, a = B["hb"]["nominal"][cp], A["hb"]["nominal"].get(cp, 0)
+        b, a = B["hb"]["nominal"][cp] or 0, A["hb"]["nominal"].get(cp, 0) or 0     # None: HarfBuzz has no mapping
         nom.append([cp, nid.get(old[b], 0) if b < N else 0, nid.get(A["order"][a], 0) if a < len(A["order"]) else 0])
     sa = dict(A["hb"]["shape"])
     sh = [[i + 1, I(res), I(sa.get(key, absent))] for i, (key, res) in enumerate(B["hb"]["shape"])]
@@ -346,9 +348,13 @@ def build_scale_trace(B, A, want, meta, rng, cap):
             for (p, k, vb, h), (_p, _k, va, _h) in zip(lb, la):
                 if k == "D":
                     items.append((key, int(vb), int(va), h))
+                elif k == "E":
+                    # B = floor|ceil(b), A = floor|ceil(a) with |a - k*b| <= h0/2 (h0 separately rounded numbers):
+                    # |A - k*B| < 1 + h0/2 + k  =>  bound (h0 + 2 + 2*ceil(k))/2; h already holds h0 + 2
+                    items.append((key, int(vb), int(va), h + 2 * -(-want // B["upem"])))
                 elif k == "M":
                     for x, y in zip(vb, va):
-                        fm.append([key, x, y])
+                        fm.append([key.strip() + ".FontMatrix", x, y])
     # HarfBuzz
     hbt, hbi = [], []
     order = B["order"]
@@ -387,7 +393,9 @@ def build_scale_trace(B, A, want, meta, rng, cap):
                     x, y = cb[i + c], ca[i + c]
                     if x != int(x) or y != int(y):
                         ok = False
-                    tmp.append(("hb.draw", int(x), int(y), j if B["iscff"] else 1 + B["depth"].get(n, 0)))
+                    # glyf: HarfBuzz reports x + lsb - xMin when it applies phantom points (three rounded numbers),
+                    # plus one component offset per level of nesting
+                    tmp.append(("hb.draw", int(x), int(y), j if B["iscff"] else 3 + B["depth"].get(n, 0)))
         if ok:
             hbi.extend(tmp)
         else:
